@@ -188,7 +188,7 @@ PROPERTIES = {
         "level": "exploration",
         "rule": ("two-module rig tx.out -> rx.in over one channel: bitrate {0,1,3,8,1e3,8e3,1e6,1e9,1e12,1e13,123456789} x latency {0,3ns,1ms,1s} x jitter {0,1ms,1s} x "
                  "policy {Drop, Queue(None), Queue(0), Queue(L) with L at / one below / one above sums of the message lengths in play}; offers in bursts of 1..50 "
-                 "inside one handler with gaps below / at / above the transmission time, several busy periods, body sizes {0..65000}, the connect call issued from either end; every 100 cases a second link created at run time inside a handler from the channel of the first link while that is transmitting (the new direction must be idle and deliver after exactly tx + latency); two thirds of the cases attach a probe to the sending direction at start-up and half of those replace it from the handler before every second burst and after the first message of every burst, i.e. while the channel transmits and holds queued messages - the probes together must see every transmission exactly once, at the instant it starts, and replacing one must change nothing else; plus an enumerated "
+                 "inside one handler with gaps below / at / above the transmission time, several busy periods, body sizes {0..65000}, the connect call issued from either end; every 100 cases a second link created at run time inside a handler from the channel of the first link while that is transmitting (the new direction must be idle and deliver after exactly tx + latency), and a probe with traffic in both directions of one link at once (a message offered to the idle direction while the other transmits and queues starts at once: the directions are independent); two thirds of the cases attach a probe to the sending direction at start-up and half of those replace it from the handler before every second burst and after the first message of every burst, i.e. while the channel transmits and holds queued messages - the probes together must see every transmission exactly once, at the instant it starts, and replacing one must change nothing else; plus an enumerated "
                  "boundary grid (limit = k*len-1, k*len, k*len+1 x burst 1..5). Every offer logs the channel's busy flag, finish time and queue "
                  "(hook: Channel::verif_state) before and after; every arrival is logged by the receiver. Oracle: reference automaton with exact integer "
                  "arithmetic (only size/bitrate combinations whose rounding to ns is unambiguous are generated): busy flag, finish time and queue length at "
@@ -203,11 +203,11 @@ PROPERTIES = {
         "floor": {
             "quick": {"offers": 1000000, "deliveries_checked": 500000, "drops_predicted": 300000, "messages_queued": 200000, "busy_periods": 300000,
                       "offers_at_the_busy_boundary_resolved_by_flag": 20000, "zero_length_transmissions": 50000, "cases_with_jitter": 20000,
-                      "boundary_grid_cases": 400, "transmissions_seen_by_a_probe": 500000,
+                      "boundary_grid_cases": 400, "transmissions_seen_by_a_probe": 500000, "links_with_traffic_in_both_directions_at_once": 1000,
                       "cases_with_the_probe_replaced_while_the_channel_is_in_use": 15000},
             "thorough": {"offers": 20000000, "deliveries_checked": 10000000, "drops_predicted": 6000000, "messages_queued": 4000000, "busy_periods": 6000000,
                          "zero_length_transmissions": 1000000, "cases_with_jitter": 400000, "boundary_grid_cases": 400,
-                         "transmissions_seen_by_a_probe": 8000000, "cases_with_the_probe_replaced_while_the_channel_is_in_use": 300000},
+                         "transmissions_seen_by_a_probe": 8000000, "links_with_traffic_in_both_directions_at_once": 20000, "cases_with_the_probe_replaced_while_the_channel_is_in_use": 300000},
         },
     },
     "C08": {
@@ -259,7 +259,7 @@ PROPERTIES = {
         "rule": ("1..4 async modules x 1..8 tasks x up to 30 steps of generated timer scripts: sleep, sleep_until (also in the past), timeout over "
                  "{sleep, yield_now, pending, far-future sleep}, biased select! of two sleeps (one possibly far future), poll-once-then-drop, pinned sleep "
                  "with reset (before its deadline, and after the deadline was reached while the task waited for another timer), interval sections with Burst / Delay / Skip and late ticks (a third of them created with interval_at with the first tick due 50 / 10 ms ago, now, or in 10 / 100 ms; Interval::reset between ticks and, for a third of the interval_at sections, before the first tick - which may be more than one period away), two sleeps of one task with the same deadline of which the first registered is dropped and the second awaited, recv from a channel fed at generated instants; a third of the scripts goes through the other entry points (sleep_until(now + d), timeout_at, interval_at(now, p)) and the accessors deadline() / is_elapsed() / period() / missed_tick_behavior() must agree with what was asked for; half of the cases add up to 6 unrelated self messages per module, three quarters of them arriving exactly at a timer deadline of that module and half of them swallowed by a processing element (the handler never runs in that event) - they must not move any completion; durations from a small "
-                 "set so that deadlines collide across tasks and cancelled timers leave empty slots in front of live ones. Every step logs (module, task, "
+                 "set (whole milliseconds up to 10 s, plus 0.3 ms and 0.7 ms: deadlines of different tasks may differ by less than a millisecond) so that deadlines collide across tasks and cancelled timers leave empty slots in front of live ones. Every step logs (module, task, "
                  "step, SimTime::now(), outcome); oracle = reference interpreter in virtual time: completion time equal (never earlier, never later), outcome "
                  "equal, every step completes, run() Ok, run does not end before the last deadline; hook H5: after every module event a waiting timer has a "
                  "wake-up scheduled at or before its deadline. Non-trivial = case in which a module event ended with an empty slot in front of a live timer; "
@@ -316,7 +316,7 @@ PROPERTIES = {
     "C09": {
         "level": "fault_enumeration",
         "rule": ("root p0 with 1..3 victim children and a receiver p1; per victim 0..3 shutdown / restart cycles plus requests that arrive while it is down, "
-                 "requested from a message handler or from a task, restart never / in d / at t, two victims sharing the same instants; every incarnation sends a message from its first start-up stage and one in the very event in which it requests its shutdown (both must be delivered); a quarter of the victims is an AsyncFn block (one task receiving the module's messages) instead of a hand-written module, ticker task, "
+                 "requested from a message handler or from a task, restart never / in d / at t (a quarter of the restart requests is preceded, in the same event, by a plain shutdown(): a restart time was given, so the module restarts), two victims sharing the same instants; every incarnation sends a message from its first start-up stage and one in the very event in which it requests its shutdown (both must be delivered); a quarter of the victims is an AsyncFn block (one task receiving the module's messages) instead of a hand-written module, ticker task, "
                  "self-message beat chain, data messages over a delayed channel (also in flight at the request / restart instant), messages passing through a "
                  "transit gate of the victim on their way to p1 (sent while up, at the gate while down), the parent probing child() periodically; a third of the hand-written victims installs a processing element that logs every event its stack sees, a quarter spawns a task in Module::reset that sleeps 1 / 16 / 106 ms and then logs (neither may show strictly inside a down interval; the at_sim_end call, which des delivers to every module, is exempt); every fifth "
                  "case places arrivals exactly on request / restart instants. All callbacks log into one global sequence. Oracle = evaluation of the statement: "
@@ -332,10 +332,12 @@ PROPERTIES = {
             "quick": {"shutdowns_effective": 20000, "restarts": 15000, "data_messages_due_while_down": 50000, "transit_messages_due_while_down": 50000,
                       "transit_messages_in_flight_at_shutdown": 5000, "shutdown_requests_from_tasks": 10000, "shutdown_requests_from_handlers": 10000,
                       "cases_with_deliberate_coincidences": 2000, "log_entries_checked": 5000000,
-                      "events_seen_by_victim_processing_stacks": 500000, "victims_spawning_a_sleeping_task_in_reset": 2000},
+                      "events_seen_by_victim_processing_stacks": 500000, "victims_spawning_a_sleeping_task_in_reset": 2000,
+                      "restart_requests_issued_right_after_a_plain_shutdown_in_the_same_event": 4000},
             "thorough": {"shutdowns_effective": 400000, "restarts": 300000, "data_messages_due_while_down": 1000000,
                          "transit_messages_due_while_down": 1000000, "transit_messages_in_flight_at_shutdown": 100000, "log_entries_checked": 100000000,
-                         "events_seen_by_victim_processing_stacks": 15000000, "victims_spawning_a_sleeping_task_in_reset": 40000},
+                         "events_seen_by_victim_processing_stacks": 15000000, "victims_spawning_a_sleeping_task_in_reset": 40000,
+                         "restart_requests_issued_right_after_a_plain_shutdown_in_the_same_event": 80000},
         },
     },
     "C12": {
